@@ -44,15 +44,6 @@ pub fn check_ts(case: &TsCase, st: &mut Stats, exact_count: bool) -> Result<(), 
     }
     let got = UtcDateTime::from_timespec(t, ns);
     let got2 = DateTime::from_timespec(t, ns, TimeZoneRef::utc());
-    if ns >= 1_000_000_000 {
-        // this constructor passes nanoseconds through today; refusing out-of-range nanoseconds would be just as compatible with C01,
-        // so only "no panic, and a returned value carries the given nanoseconds" is asserted for them
-        st.class("nanoseconds_beyond_one_second_not_asserted");
-        return match (&got, &got2) {
-            (Ok(a), _) if a.nanoseconds() != ns => Err(format!("t={t}: nanoseconds {} returned for {ns}", a.nanoseconds())),
-            _ => Ok(()),
-        };
-    }
     match (&exp, &got) {
         (None, Err(TzError::OutOfRange)) => {
             st.class("refused");
@@ -144,7 +135,7 @@ pub fn run(ctx: &Ctx) -> Outcome {
     );
     out.assumptions = vec![
         "oracle O-cal (era-based civil_from_days/days_from_civil) validated at start-up against a day-by-day odometer over 1600..2400 and periodicity probes".into(),
-        "nanoseconds are pass-through in from_timespec (not validated by that constructor; the property's range claim is about calendar fields)".into(),
+        "C01 quantifies over all nanosecond values (the full u32 range): the conversion must succeed for every one of them and hand it back unchanged".into(),
     ];
     let (klo, khi) = gens::cycle_range();
     // (a) cycles
